@@ -92,7 +92,7 @@ Print Assumptions C11_literals_reviewed.
    and make_srep — the radius match (5_000_000 / 5), the per-version choice of midpoint, the field
    lists and their order, the encode, the signature over prefix ++ SREP — compute what the model
    computes. The midpoint / radius theorems above therefore hold of the code as written today. *)
-Require Import RV.Model.GenSupport RV.Gen.Code RV.Proofs.CodeKeys.
+Require Import RV.Model.GenSupport RV.Gen.Code RV.Proofs.CodeOnline.
 
 Theorem C11_translated_midpoints_are_model :
   forall ok now, gen_classic_midp ok now = Ok (classic_midp now) /\ gen_rfc_midp ok now = Ok (rfc_midp now).
